@@ -15,8 +15,11 @@
 in a Gaussian and non-Gaussian circuit."""
 
 import networkx as nx
+import numpy as np
 
+import strawberryfields.ops as ops
 import strawberryfields.program_utils as pu
+from strawberryfields.program_utils import Command
 
 from .compiler import Compiler
 from .gaussian_unitary import GaussianUnitary
@@ -185,6 +188,13 @@ class GaussianMerge(Compiler):
                     # Fix order of operations
                     unified_operations = self.organize_merge_ops([op] + merged_gaussian_ops)
                     gaussian_transform = GaussianUnitary().compile(unified_operations, registers)
+                    if not gaussian_transform:
+                        # the merged operations multiply to the identity; an explicit identity
+                        # keeps a node to which the neighbours of the merged block are attached
+                        regs = {r.ind: r for cmd in unified_operations for r in cmd.reg}
+                        regs = [regs[ind] for ind in sorted(regs)]
+                        identity = ops.GaussianTransform(np.identity(2 * len(regs)))
+                        gaussian_transform = [Command(identity, regs)]
                     self.new_DAG.add_node(gaussian_transform[0])
 
                     # Logic to add displacement gates. Returns a dictionary,
